@@ -58,13 +58,20 @@ def main():
         nb = 160 if tier == 'quick' else 2500
         tmp = tempfile.mkdtemp(prefix='c10_', dir=os.getcwd())
         def make_bam(path, b, s, reflen, bintag, contigs, n, extra=False, only=None):
-            header = bamgen.make_header([(c, reflen) for c in sorted(set(contigs))])
+            # contigs of one BAM have DIFFERENT lengths (same coordinate, other bounds), the first one has `reflen`
+            names = sorted(set(contigs))
+            lens = {c: (reflen if k == 0 else max(4, reflen + rng.choice([-b, -1, 1, b, 2 * b, -reflen // 2]))) for k, c in enumerate(names)}
+            header = bamgen.make_header([(c, lens[c]) for c in names])
             reads, desc = [], []
+            shared = rng.choice([0, lens[names[0]] - 1, lens[names[0]], b * max(0, lens[names[0]] // b - 1)])
             for i in range(n):
                 contig = rng.choice(contigs)
+                reflen = lens[contig]
                 # bin-tag value on multiples of the bin size / increment, 0, the contig end, and anything else
                 c = rng.choice([0, reflen - 1, reflen, rng.randint(0, reflen), b * rng.randint(0, reflen // b),
                                 s * rng.randint(0, reflen // s), max(0, b * rng.randint(0, reflen // b) - 1)])
+                if rng.random() < 0.35:
+                    c = shared                      # the same coordinate on contigs of different length
                 c = min(c, reflen)
                 sample = rng.choice(['cellA', 'cellB'])
                 pos = min(max(0, c - 2), reflen - 4)
